@@ -240,9 +240,14 @@ def pointToValueLoop (t : TView) (faces : Array Nat) (numPoints : Nat) (v2d : Ar
     pointToValueLoop t faces numPoints v2d n (c + 1) m'
 
 /-- `MeshTraversalSequencer::UpdatePointToAttributeIndexMapping`: `SetExplicitMapping(num_points)`
-    on a fresh attribute (all entries invalid), then every corner of every face -/
-def pointToValueMap (t : TView) (faces : Array Nat) (numPoints : Nat) (v2d : Array Nat) : R (Array Nat) :=
-  pointToValueLoop t faces numPoints v2d (3 * t.numFaces) 0 (Array.replicate numPoints inv)
+    on a fresh attribute (all entries invalid), then every corner of every face, then the check that
+    no entry stayed invalid -/
+def pointToValueMap (t : TView) (faces : Array Nat) (numPoints : Nat) (v2d : Array Nat) : R (Array Nat) := do
+  let m ← pointToValueLoop t faces numPoints v2d (3 * t.numFaces) 0 (Array.replicate numPoints inv)
+  -- every point must have received a value (`fix:` commit dcc9947): a point used by no face would stay
+  -- mapped to kInvalidAttributeValueIndex
+  if m.any (· == inv) then raise .fail
+  pure m
 
 structure EbAttState where
   desc : AttDesc
